@@ -832,6 +832,27 @@ def r15_8(ctx, prog, crate):
             ctx.check(t_of[t] == t_new[t], "R15.8", [t.rsplit("::", 1)[-1], "same-kind-in-of-and-new"],
                       "KnownCounterKind::of::<%s>() is %s but AnyCounter::new stores a %s value as %s" % (t, t_of[t], t, t_new[t]), new.where(0))
     ctx.check(len(set(t_of.values())) == len(t_of), "R15.8", ["of", "one-kind-per-type"], "two counter types share a kind: %s" % t_of, of.where(0))
+    # count_inputs_as::<C>: the arm of kind K installs an input counter of the type whose kind is K
+    kinds = [v["name"] for v in prog.adt(A + "KnownCounterKind", crate)["variants"]]
+    for cia in [b for b in prog.find("benchmark::Bencher::count_inputs_as", crate) if b.kind == "AssocFn"]:
+        ctx.saw(cia)
+        sums = PathEval(cia).run()
+        if not ctx.check(bool(sums), "R15.8", ["count_inputs_as", "readable"], "cannot summarise count_inputs_as", cia.where(0)):
+            continue
+        seen = set()
+        for s in sums:
+            ds = [a for a, p in s.conds if p and a[0] == "discr" and a[1][0] == "site" and a[1][1] == A + "KnownCounterKind::of" and isinstance(a[2], int)]
+            ics = [c for c in s.calls if c[0] == "benchmark::Bencher::input_counter"]
+            if len(ds) != 1 or len(ics) != 1 or ds[0][2] >= len(kinds):
+                ctx.fail("R15.8", ["count_inputs_as", "path-shape"], "a path of count_inputs_as is not `KnownCounterKind::of::<C>() == K => input_counter(..)`", cia.where(0))
+                continue
+            k = kinds[ds[0][2]]
+            seen.add(k)
+            call = cia.call_at(ics[0][2])
+            tys = [norm(g) for g in call.gargs if norm(g) in t_of]
+            ctx.check(len(tys) == 1 and t_of[tys[0]] == k, "R15.8", ["count_inputs_as", k, "counts-as-that-kind"],
+                      "count_inputs_as::<C>() with C of kind %s installs an input counter of type %s (kind %s)" % (k, tys, [t_of[t] for t in tys]), call.line())
+        ctx.check(seen == set(kinds), "R15.8", ["count_inputs_as", "every-kind"], "count_inputs_as handles kinds %s of %s" % (sorted(seen), kinds), cia.where(0))
     # getters
     for fn, field in (("known_kind", "kind"), ("count", "count")):
         g = prog.body(A + "AnyCounter::" + fn, crate)
